@@ -213,14 +213,25 @@ def go_build(pkg="./cmd/hz", race=False, tags="verif", out=None):
         return _built[key]
     d = scratch("gobin")
     outp = out or os.path.join(d, "hz" + ("-race" if race else ""))
+    hdir = HARNESS
+    if os.path.realpath(REPO) != "/repo":
+        # rehearsal against a scratch worktree (VERIF_REPO): build a copy of the harness whose replace
+        # directive points there; registered checks always use /repo itself
+        hdir = os.path.join(d, "harness")
+        shutil.copytree(HARNESS, hdir)
+        gm = os.path.join(hdir, "go.mod")
+        with open(gm) as fh:
+            txt = fh.read().replace("=> /repo", "=> " + os.path.realpath(REPO))
+        with open(gm, "w") as fh:
+            fh.write(txt)
     gosum = os.path.join(REPO, "go.sum")
     if os.path.exists(gosum):
-        shutil.copy(gosum, os.path.join(HARNESS, "go.sum"))
+        shutil.copy(gosum, os.path.join(hdir, "go.sum"))
     cmd = ["go", "build", "-tags", tags, "-o", outp]
     if race:
         cmd.append("-race")
     cmd.append(pkg)
-    p = subprocess.run(cmd, cwd=HARNESS, capture_output=True, text=True, env=GOENV, timeout=900)
+    p = subprocess.run(cmd, cwd=hdir, capture_output=True, text=True, env=GOENV, timeout=900)
     if p.returncode != 0:
         raise InfraError("go build failed (this is a build problem, not a verdict):\n" + (p.stdout + p.stderr)[-3000:])
     _built[key] = outp
